@@ -560,10 +560,29 @@ impl<'e> Body<'e> {
                     self.emit(I::MemorySize(m as u32))
                 }
             }
-            VT::V128 => match self.rng.below(5) {
+            VT::V128 => match self.rng.below(8) {
                 0 => {
                     self.expr(VT::I32, depth + 1);
                     self.emit(I::I32x4Splat)
+                }
+                // relaxed-simd proposal (finished: part of walrus's stable feature set)
+                5 => {
+                    self.expr(VT::V128, depth + 1);
+                    self.expr(VT::V128, depth + 1);
+                    let op = self.rng.pick(&[I::I8x16RelaxedSwizzle, I::F32x4RelaxedMin, I::F64x2RelaxedMax, I::I16x8RelaxedQ15mulrS, I::I16x8RelaxedDotI8x16I7x16S]).clone();
+                    self.emit(op)
+                }
+                6 => {
+                    self.expr(VT::V128, depth + 1);
+                    self.expr(VT::V128, depth + 1);
+                    self.expr(VT::V128, depth + 1);
+                    let op = self.rng.pick(&[I::F32x4RelaxedMadd, I::F64x2RelaxedNmadd, I::I8x16RelaxedLaneselect, I::I64x2RelaxedLaneselect, I::I32x4RelaxedDotI8x16I7x16AddS, I::V128Bitselect]).clone();
+                    self.emit(op)
+                }
+                7 => {
+                    self.expr(VT::V128, depth + 1);
+                    let op = self.rng.pick(&[I::I32x4RelaxedTruncF32x4S, I::I32x4RelaxedTruncF64x2UZero, I::F32x4Ceil, I::I16x8ExtendLowI8x16S, I::I8x16Popcnt]).clone();
+                    self.emit(op)
                 }
                 1 => {
                     self.expr(VT::V128, depth + 1);
@@ -740,6 +759,12 @@ impl<'e> Body<'e> {
                 let params = self.env.sigs[self.env.funcs[f] as usize].0.clone();
                 for p in params {
                     self.expr(p, depth + 2);
+                }
+                let funcref_tables: Vec<usize> = self.env.tables.iter().enumerate().filter(|(_, e)| !**e).map(|(i, _)| i).collect();
+                if !funcref_tables.is_empty() && self.rng.chance(1, 3) {
+                    let tb = *self.rng.pick(&funcref_tables);
+                    self.expr(VT::I32, depth + 2);
+                    return self.emit(I::ReturnCallIndirect { type_index: self.env.funcs[f], table_index: tb as u32 });
                 }
                 return self.emit(I::ReturnCall(f as u32));
             }
